@@ -36,6 +36,8 @@ CORE = [
     ("methods", [R("/a", "GET,POST"), R("/a/:p", "POST"), R("/:q", "GET")]),
     # params above statics, two params, a param-prefixed mount
     ("params", [M("/:t", R("/"), R("/x"), R("/:u"))]),
+    # routes that name the param of one position differently (the name must not matter for matching)
+    ("paramnames", [R("/:a/x"), R("/:b/y"), R("/:c")]),
 ]
 POOL = [
     ("deep", [R("/a/b/c"), R("/a/b"), R("/a/:p/c")]),
